@@ -212,6 +212,8 @@ def run_check(cd, tier, seed, write=True):
     for (label, b) in binaries:
         pbjobs = []
         for (prog, params, n, pol) in cd.programs[tier]:
+            # budgets: what TLC can validate in reasonable time on 16 cores (a thorough run stays in the tens of minutes)
+            n = min(n, (40000 if tier == 'thorough' else 6000) if pol.startswith('pb') else (12000 if tier == 'thorough' else n))
             args = list(cd.harness_args) + ['prog=' + prog] + ['%s=%s' % kv for kv in params.items()]
             if pol.startswith('pb'):
                 # exhaustive enumeration of all schedules with at most K preemptions (n = cap); one process per program
@@ -256,7 +258,7 @@ def run_check(cd, tier, seed, write=True):
 
     validated = 0
     if cd.trace_spec:
-        fnd, st = core.validate(files, cd.trace_spec[0], os.path.join(core.SPECS, cd.trace_spec[1]), tag=cd.pid + 'tr')
+        fnd, st = core.validate(files, cd.trace_spec[0], os.path.join(core.SPECS, cd.trace_spec[1]), tag=cd.pid + 'tr', timeout=900 if tier == 'quick' else 3600)
         for x in fnd:
             if x['kind'] == 'error':
                 raise Infra('trace validation failed: ' + x['text'])
@@ -267,7 +269,7 @@ def run_check(cd, tier, seed, write=True):
     phase('trace-spec validation')
     cands = []
     for (mod, cfg) in cd.monitors:
-        fnd, st = core.validate(files, mod, os.path.join(core.SPECS, cfg), tag=cd.pid + 'mon')
+        fnd, st = core.validate(files, mod, os.path.join(core.SPECS, cfg), tag=cd.pid + 'mon', timeout=900 if tier == 'quick' else 3600)
         for x in fnd:
             if x['kind'] == 'error':
                 raise Infra('monitor failed: ' + x['text'])
